@@ -1,0 +1,83 @@
+//go:build verif
+
+package rest
+
+import (
+	"github.com/inbucket/inbucket/v3/pkg/extension/event"
+	"github.com/inbucket/inbucket/v3/pkg/msghub"
+	"github.com/inbucket/inbucket/v3/pkg/rest/model"
+)
+
+// VerifListener exposes a real WebSocket hub listener (v1 or v2) without a network peer, so a
+// harness can play the roles of the socket reader (Close) and writer (TryNext).
+type VerifListener interface {
+	msghub.Listener
+	// Close is the listener's own Close method (as deferred by WSReader and WSWriter).
+	Close()
+	// TryNext does a non-blocking receive from the listener's queue, as WSWriter would.
+	// open is false once the queue has been closed and drained.
+	TryNext() (ev *VerifEvent, got bool, open bool)
+	// Len returns the number of queued events.
+	Len() int
+}
+
+// VerifEvent is a queued monitor event in a version independent form.
+type VerifEvent struct {
+	Deleted bool
+	Mailbox string
+	ID      string
+	Subject string
+}
+
+type verifListenerV1 struct{ *msgListenerV1 }
+
+type verifListenerV2 struct{ *msgListenerV2 }
+
+// VerifNewListenerV1 creates and registers a real v1 listener exactly as the socket handler does.
+func VerifNewListenerV1(hub *msghub.Hub, mailbox string) VerifListener {
+	return verifListenerV1{newMsgListenerV1(hub, mailbox)}
+}
+
+// VerifNewListenerV2 creates and registers a real v2 listener exactly as the socket handler does.
+func VerifNewListenerV2(hub *msghub.Hub, mailbox string) VerifListener {
+	return verifListenerV2{newMsgListenerV2(hub, mailbox)}
+}
+
+func (l verifListenerV1) Len() int { return len(l.c) }
+
+func (l verifListenerV1) TryNext() (*VerifEvent, bool, bool) {
+	select {
+	case msg, ok := <-l.c:
+		if !ok {
+			return nil, false, false
+		}
+		return verifEventFromMeta(msg), true, true
+	default:
+		return nil, false, true
+	}
+}
+
+func (l verifListenerV2) Len() int { return len(l.c) }
+
+func (l verifListenerV2) TryNext() (*VerifEvent, bool, bool) {
+	select {
+	case ev, ok := <-l.c:
+		if !ok {
+			return nil, false, false
+		}
+		return verifEventFromV2(ev), true, true
+	default:
+		return nil, false, true
+	}
+}
+
+func verifEventFromMeta(msg event.MessageMetadata) *VerifEvent {
+	return &VerifEvent{Mailbox: msg.Mailbox, ID: msg.ID, Subject: msg.Subject}
+}
+
+func verifEventFromV2(ev *model.JSONMonitorEventV2) *VerifEvent {
+	if ev.Variant == "message-deleted" {
+		return &VerifEvent{Deleted: true, Mailbox: ev.Identifier.Mailbox, ID: ev.Identifier.ID}
+	}
+	return &VerifEvent{Mailbox: ev.Header.Mailbox, ID: ev.Header.ID, Subject: ev.Header.Subject}
+}
